@@ -933,7 +933,12 @@ def _x_state_diff(a, b, compiler, case):
         return float(np.max(np.abs(a.V - b.V))) / scale, "covariance"
     Na, Ma, _ = a.NM()
     Nb, Mb, _ = b.NM()
-    d = max(float(np.max(np.abs(np.abs(Na) - np.abs(Nb)))), float(np.max(np.abs(np.abs(Ma) - np.abs(Mb)))))
+    # relative to the size of the moments, and to the conditioning of the route through the A matrix: merged S2gates with a total
+    # r of 4.5 .. 6.5 give <n> ~ 2e3 .. 1e5 and Xcov (cov -> Q^-1 -> takagi -> arctanh) returns them with a relative rounding error
+    # of about eps * <n>^2 (measured 9e-10 and 3.7e-6).  The allowance below is 500 eps <n>^2 on top of the usual 1e-7.
+    scale = max(1.0, float(np.max(np.abs(Na))), float(np.max(np.abs(Ma))))
+    d = max(float(np.max(np.abs(np.abs(Na) - np.abs(Nb)))), float(np.max(np.abs(np.abs(Ma) - np.abs(Mb))))) / scale
+    d = max(0.0, d - 1e-13 * scale ** 2)
     what = "|N|,|M|"
     sub = [m for m in case["sub_modes"] if m < a.n]
     if sub:
